@@ -169,9 +169,8 @@ PROPS = {
     "C06": {
         "engines": [("c06", "main")],
         "lean": ["PgsVerif.Props.C06"],
-        "category": "exploration",
         "rule": "curated + seeded random protodesc-valid worlds built bidirectionally; TWO ASTs from the same request: A observed once per (entity, accessor) in canonical order (first-call oracle), B driven by a random history of 20-100 calls with repetitions over 31 (kind, accessor) pairs (file: imports/transitive/dependents/unused/messages/allMessages/enums/allEnums/services/exts/walk; message: 16 accessors incl. dependencies/dependents/imports/walk; enum: values/dependents; service: methods/imports/walk), biased towards the cached / derived ones; every result compared with A's and with the model; non-trivial = at least 2 ops",
-        "level_text": "THEOREMS PENDING (level exploration until proved) and PARTIAL by nature: the model's only mutable state are the lazily filled caches; Go slice aliasing (listings built by append on internal slices) has no counterpart in a functional model and is covered by the correspondence run only. Phi_C06 = every result equals the first-call result on a fresh AST of the same request and what the request declares.",
+        "level_text": "Lean theorems (Props/C06, on top of C05's cache invariant): the model threads the only mutable state read accessors touch - the memoised message/enum closures and the per-file dependents cache - through an arbitrary history (runHistory/stepH); C06_history (for EVERY finite sequence of accessor calls and walks, any order, any repetition, from every admissible cache state, each call answers what the first call on a freshly built AST answers), C06_from_fresh, C06_prefix_irrelevant, C06_repetition, C06_model (the compared observation is that stateful run). The correspondence check runs the real accessors under random permutations with repetitions against a second AST built from the same bytes and against this model. Not modelled: aliasing of returned Go slices (a caller mutating a returned slice) - the harness only reads.",
         "level_note": "Trusted: protodesc validity; descriptor pointer identity; derived relations compared as sorted sequences (a duplicate stays visible).",
     },
     "C16": {
